@@ -18,6 +18,7 @@ RUNDIR = os.path.join(VERIF, ".build", "run")
 # self-tests) write theirs under .build/scratch so that the committed evidence is never overwritten
 OUT = VERIF if os.environ.get("VERIF_REPO", "/repo") == "/repo" else os.path.join(VERIF, ".build", "scratch")
 PROGRESS_SIZE = 32 + 128
+MAX_DEATHS_PER_BATCH = 150
 
 
 def cause_of(rc):
@@ -163,7 +164,7 @@ def merge_stats(total, new):
             total[k] = total.get(k, 0) + v
 
 
-def run_batch(binary, kind, seed, first, count, nworkers, env=None, chunk=200, extra="", deadline=None, stall=120, args=None):
+def run_batch(binary, kind, seed, first, count, nworkers, env=None, chunk=200, extra="", deadline=None, stall=120, args=None, init_cmds=()):
     """Execute runs [first, first+count) of `kind` (RUNS/SWEEP/...) on persistent workers.
     Returns dict(stats, candidates[list of dict(run, sig)], hashes{run: hash}, executed, deaths)."""
     q = queue.Queue()
@@ -182,15 +183,19 @@ def run_batch(binary, kind, seed, first, count, nworkers, env=None, chunk=200, e
 
     def loop(wid):
         w = Worker(binary, wid, env, args=args)
+        for ic in init_cmds:
+            command(w, ic, timeout=60)
         try:
             while True:
                 if deadline and time.time() > deadline:
                     return
+                if res["deaths"] >= MAX_DEATHS_PER_BATCH:
+                    return  # the candidates collected so far are enough; do not grind through a tree that dies on every run
                 try:
                     a, n = q.get_nowait()
                 except queue.Empty:
                     return
-                while n > 0:
+                while n > 0 and res["deaths"] < MAX_DEATHS_PER_BATCH:
                     lines, death = command(w, cmdline(a, n), timeout=3600, stall=stall)
                     with lock:
                         for l in lines:
@@ -220,6 +225,8 @@ def run_batch(binary, kind, seed, first, count, nworkers, env=None, chunk=200, e
                         res["executed"] += r - a + 1
                     w.kill()
                     w.start()
+                    for ic in init_cmds:
+                        command(w, ic, timeout=60)
                     n = a + n - (r + 1)
                     a = r + 1
         finally:
